@@ -43,6 +43,19 @@ let cs (t : Stdlib.String.t) =
   for i = Stdlib.String.length t - 1 downto 0 do r := String (asc t.[i], !r) done; !r
 let rec sc = function EmptyString -> "" | String (a, r) -> Stdlib.String.make 1 (chr_of a) ^ sc r
 
+let rec z_of_int (i : int) : z = if i = 0 then Z0 else if i > 0 then Zpos (pos_of_int i) else Zneg (pos_of_int (- i))
+let int_of_z = function Z0 -> 0 | Zpos p -> int_of_pos p | Zneg p -> - (int_of_pos p)
+let jv_of_tok t =
+  match String.split_on_char ':' t with
+  | ["s"; x] -> JStr (str_of_tok x)
+  | ["i"; x] -> JInt (z_of_int (int_of_string x))
+  | ["f"; x] -> JFlo (str_of_tok x)
+  | ["b"; x] -> JBool (x = "1")
+  | _ -> JNull
+let tok_of_jv = function
+  | JStr s -> "s:" ^ tok_of_str s | JInt z -> "i:" ^ string_of_int (int_of_z z)
+  | JFlo r -> "f:" ^ tok_of_str r | JBool b -> if b then "b:1" else "b:0" | JNull -> "n"
+
 let handle line =
   match String.split_on_char '\t' line with
   | "gvn" :: kind :: rest ->
@@ -118,6 +131,22 @@ let handle line =
       let r = { r_opt = bool_of_tok opt; r_notreq = bool_of_tok notreq; r_eff = ef } in
       (if required_rt kd r then "1" else "0") ^ "\t" ^ (if admits_null kd r then "1" else "0") ^ "\t" ^
       (match reads_default kd r with None -> "-" | Some true -> "default" | Some false -> "none")
+  | "penum" :: rest ->
+      let (o, rest) = opts_of rest in
+      (match rest with
+       | [ty; varnames; values; probe] ->
+           let t = (if ty = "string" then TString else if ty = "-" then TNone else TOther (str_of_tok ty)) in
+           let vn = (if varnames = "-" then None else Some (List.map str_of_tok (String.split_on_char ';' varnames))) in
+           let vs = (if values = "" then [] else List.map jv_of_tok (String.split_on_char ';' values)) in
+           (match parse_enum u0 enum_table o t vn vs with
+            | None -> "ERROR"
+            | Some l ->
+                let fm = (if probe = "-" then "-" else
+                            match find_member l (jv_of_tok probe) with None -> "NONE" | Some n -> tok_of_str n) in
+                (if enum_nullable t vs then "1" else "0") ^ "\t" ^
+                String.concat ";" (List.map (fun (n, lt) -> tok_of_str n ^ "=" ^
+                   (match lt with LQuoted e -> "q:" ^ tok_of_str e | LRaw v -> "r:" ^ tok_of_jv v)) l) ^ "\t" ^ fm)
+       | _ -> "BADREQ")
   | ["c2s"; s] -> tok_of_str (camel_to_snake u0 (str_of_tok s))
   | ["s2uc"; d; s] -> tok_of_str (s2uc u0 (n_of_int (int_of_string d)) (str_of_tok s))
   | _ -> "BADREQ"
